@@ -394,7 +394,7 @@ pub fn run_heights(lo: usize, hi: usize) -> J {
 // misuse
 // ------------------------------------------------------------------------------------------
 
-pub const MISUSE: [&str; 11] = [
+pub const MISUSE: [&str; 12] = [
     "cycle_rhs_node_of_dependent_bind",
     "cycle_rhs_node_three_binds",
     "cycle_one_bind",
@@ -405,6 +405,7 @@ pub const MISUSE: [&str; 11] = [
     "nested_stabilise_map",
     "nested_stabilise_bind",
     "nested_stabilise_handler",
+    "nested_stabilise_handler_pending_write",
     "nested_stabilise_cutoff",
 ];
 
@@ -547,6 +548,45 @@ pub fn misuse_case(name: &str) -> Result<String, String> {
             let o = b.observe();
             result = catch_unwind(AssertUnwindSafe(|| st.stabilise())).map_err(crate::panic_message);
             keep.push(Box::new((o, b, v, foreign, other)));
+        }
+        "nested_stabilise_handler_pending_write" => {
+            // the handler first writes a variable (so there is work to do), then calls stabilise:
+            // the nested call must be refused at the door, not after it has computed values
+            needle = None;
+            let v = st.var(0i64);
+            let w = st.var(0i64);
+            let runs = Rc::new(Cell::new(0u32));
+            let r2 = runs.clone();
+            let s2 = Steps(steps.clone());
+            let m = w.map(move |x| {
+                s2.tick();
+                r2.set(r2.get() + 1);
+                x + 1
+            });
+            let om = m.observe();
+            let o = v.observe();
+            let ws = st.weak();
+            let w2 = w.clone();
+            let inner_ran = Rc::new(Cell::new(0));
+            let ir = inner_ran.clone();
+            let _t = o.subscribe(move |_| {
+                w2.set(100);
+                if let Some(s) = ws.upgrade() {
+                    s.stabilise();
+                    ir.set(ir.get() + 1);
+                }
+            });
+            result = catch_unwind(AssertUnwindSafe(|| st.stabilise())).map_err(crate::panic_message);
+            keep.push(Box::new((o, om, m, v, w)));
+            if inner_ran.get() > 0 {
+                return Err("a nested stabilise called from an update handler returned normally".into());
+            }
+            if runs.get() != 1 {
+                return Err(format!(
+                    "a stabilise called from an update handler (after the handler wrote a variable) computed values before it was refused: the map over that variable ran {} times, expected 1",
+                    runs.get()
+                ));
+            }
         }
         "nested_stabilise_map" | "nested_stabilise_bind" | "nested_stabilise_handler" | "nested_stabilise_cutoff" => {
             needle = None;
